@@ -143,7 +143,7 @@ theorem rel_step {c : St} {s : SSt} (h : Rel c s) (e : Ev) :
   | endProg => exact ⟨⟨rfl, h.sus, h.stk, h.traps⟩, rfl⟩
   | cont => exact ⟨⟨rfl, h.sus, h.stk, h.traps⟩, rfl⟩
   | runCmd => exact ⟨⟨rfl, rfl, rfl, fun _ => trel_default⟩, rfl⟩
-  | clear => exact ⟨⟨h.run, rfl, by simp [step, sstep, h.stk], fun _ => trel_default⟩, rfl⟩
+  | clear => exact ⟨⟨h.run, rfl, rfl, fun _ => trel_default⟩, rfl⟩
 
 
 /-- the code machine and the specification machine stay related along every schedule -/
